@@ -34,7 +34,7 @@ m = {
            'baseline_off_cmd': 'cd /repo && RUSTC_WRAPPER= cargo test --workspace --no-fail-fast --offline',
            'source_commits': json.load(open(os.path.join(V, 'contracts', 'hooks.json')))['source_commits'], 'add_only': True},
  'engines': [{'name': 'vcheck', 'path': 'vcheck', 'serves_properties': sorted(reg),
-              'kind_free_text': 'extract real functions from /repo -> normalise (N1-N9) -> splice contracts -> Verus; Kani for loop-free/bounded legs; replay crate executes the real code'}],
+              'kind_free_text': 'extract real functions from /repo -> normalise (N1-N10) -> splice contracts -> Verus; Kani for loop-free/bounded legs; replay crate executes the real code'}],
  'checks': checks,
  'notes': 'fix: commits in /repo and open findings are listed in known_findings.json; DESIGN.md explains each unit.',
  'not_applicable': sorted(na, key=lambda x: x['property_id']),
